@@ -20,7 +20,7 @@ pub fn prop() -> Prop {
     .random(
         "mutated-schemas",
         check,
-        |t| if t == Tier::Quick { 160_000 } else { 1_600_000 },
+        |t| if t == Tier::Quick { 400_000 } else { 1_600_000 },
         |t| if t == Tier::Quick { 700 } else { 1000 },
     )
     .text(check_text)
